@@ -68,3 +68,40 @@ pub mod trace {
         }
     }
 }
+
+/// Clock override for the monotonic timestamp generator: when a thread-local
+/// script is installed, `compute_next` sees the scripted reading instead of
+/// the system clock (everything else in `compute_next` is the real code).
+pub mod clock {
+    use std::cell::RefCell;
+    use std::sync::Arc;
+    use std::time::{Duration, SystemTimeError};
+
+    pub type ClockFn = dyn Fn() -> i64 + Send + Sync;
+
+    thread_local! {
+        static CLOCK: RefCell<Option<Arc<ClockFn>>> = const { RefCell::new(None) };
+    }
+
+    /// Installs a clock (microseconds since the epoch) for the calling thread.
+    pub fn install_local(f: Option<Arc<ClockFn>>) {
+        CLOCK.with(|c| *c.borrow_mut() = f);
+    }
+
+    pub(crate) fn override_now(
+        real: Result<Duration, SystemTimeError>,
+    ) -> Result<Duration, SystemTimeError> {
+        let f = CLOCK.with(|c| c.borrow().clone());
+        match f {
+            Some(f) => {
+                let micros = f();
+                crate::verif::trace::emit("ts", "TsClock", &[("c", micros)]);
+                Ok(Duration::from_micros(micros.max(0) as u64))
+            }
+            None => real,
+        }
+    }
+}
+
+/// Pass-through to the crate-private merge channel.
+pub use crate::cluster::metadata::merge_channel::verif_hooks as merge_channel;
